@@ -1510,13 +1510,31 @@ Definition marker_ctl (t : tok) : bool :=
 Section Markers.
   Variable funcs : list bytes.
 
+  Lemma text_toks_markers fuel : forall s acc, forallb marker_ctl (text_toks_fuel fuel s acc) = true.
+  Proof.
+    assert (Hf : forall acc, forallb marker_ctl (flush acc) = true) by (intros [|? ?]; reflexivity).
+    induction fuel as [|f IH]; intros s acc.
+    - apply Hf.
+    - destruct s as [|c r]; [apply Hf|]. rewrite tt_step.
+      destruct (prefixb LO (c :: r)); [rewrite forallb_app, Hf; cbn [forallb marker_ctl]; apply IH|].
+      destruct (prefixb LC (c :: r)); [rewrite forallb_app, Hf; cbn [forallb marker_ctl]; apply IH|].
+      destruct (prefixb LB (c :: r)); [rewrite forallb_app, Hf; cbn [forallb marker_ctl]; apply IH|].
+      apply IH.
+  Qed.
+
+  Lemma ctext_markers s ts : ctext s = Some ts -> forallb marker_ctl ts = true.
+  Proof.
+    unfold ctext. destruct (forallb _ _); [|discriminate]. intros H; inversion H; subst.
+    apply text_toks_markers.
+  Qed.
+
   Lemma cwrap_markers raw e ts : cwrap funcs raw e = Some ts -> forallb marker_ctl ts = true.
   Proof.
     intros H. destruct e; cbn [cwrap] in H;
       try (destruct (carg funcs true _) as [[t [a|]]|] eqn:Ec; inversion H; subst; reflexivity).
     - inversion H; subst; reflexivity.
     - inversion H; subst; reflexivity.
-    - destruct (has_delim (escape s)); inversion H; subst; reflexivity.
+    - destruct (ctext (escape s)) as [[|t0 r0]|] eqn:Ec; inversion H; subst; [reflexivity|exact (ctext_markers _ _ Ec)].
     - inversion H; subst; reflexivity.
     - inversion H; subst; reflexivity.
     - (* JUn *)
@@ -1605,24 +1623,6 @@ Section Markers.
     - destruct (cstmt funcs raw s) as [a|] eqn:Ea; [|discriminate].
       match type of H with match ?g with _ => _ end = _ => destruct g as [b|] eqn:Eb; [|discriminate] end.
       inversion H; subst. cbn [andb app]. rewrite forallb_app, (cstmt_markers _ _ _ Ea), (IH b eq_refl). reflexivity.
-  Qed.
-
-  Lemma text_toks_markers fuel : forall s acc, forallb marker_ctl (text_toks_fuel fuel s acc) = true.
-  Proof.
-    assert (Hf : forall acc, forallb marker_ctl (flush acc) = true) by (intros [|? ?]; reflexivity).
-    induction fuel as [|f IH]; intros s acc.
-    - apply Hf.
-    - destruct s as [|c r]; [apply Hf|]. rewrite tt_step.
-      destruct (prefixb LO (c :: r)); [rewrite forallb_app, Hf; cbn [forallb marker_ctl]; apply IH|].
-      destruct (prefixb LC (c :: r)); [rewrite forallb_app, Hf; cbn [forallb marker_ctl]; apply IH|].
-      destruct (prefixb LB (c :: r)); [rewrite forallb_app, Hf; cbn [forallb marker_ctl]; apply IH|].
-      apply IH.
-  Qed.
-
-  Lemma ctext_markers s ts : ctext s = Some ts -> forallb marker_ctl ts = true.
-  Proof.
-    unfold ctext. destruct (forallb _ _); [|discriminate]. intros H; inversion H; subst.
-    apply text_toks_markers.
   Qed.
 
   Lemma cattrs_markers attrs ab ts : cattrs funcs attrs ab = Some ts -> forallb marker_ctl ts = true.
